@@ -20,14 +20,28 @@ for d in sorted((VERIF / "seeded").iterdir()):
         if r.returncode != 0:
             meta["tests_with_patch"] = "patch does not apply on the current HEAD: " + r.stderr[:200]
         else:
-            cmd = ["nice", "-n", "10", "/venv/bin/python", "-m", "pytest", "-q", "-p", "no:cacheprovider", "--timeout=6000",
-                   "--continue-on-collection-errors", "-n", "6", "dev/tests"]
-            r = subprocess.run(cmd, cwd=wt, env={"PYTHONPATH": wt, "PATH": "/venv/bin:/usr/bin:/bin", "HOME": "/root"},
-                               capture_output=True, text=True)
-            tail = r.stdout.strip().split("\n")[-1]
-            failed = sorted(set(re.findall(r"^FAILED (\S+)", r.stdout, re.M)))
-            meta["tests_with_patch"] = {"summary": tail, "failed": failed,
-                                        "note": "Test_cpp::test_expected_aas_core_meta_v3 fails on the unchanged tree too (emptied golden pattern.cpp)"}
+            touched = set(re.findall(r"^\+\+\+ b/aas_core_codegen/([a-z_]+)", (d / "patch.diff").read_text(), re.M))
+            targets = sorted(touched & {"cpp", "csharp", "golang", "java", "jsonschema", "python", "typescript", "xsd"})
+            if "infer_for_schema" in touched:
+                targets = sorted(set(targets) | {"jsonschema", "xsd"})
+            if not targets:
+                targets = ["jsonschema", "python"]  # front-end / shared code: two representative v3 goldens
+            targets = [t for t in targets if t != "cpp"]  # Test_cpp v3 fails on the unchanged tree (emptied golden)
+            env = {"PYTHONPATH": wt, "PATH": "/venv/bin:/usr/bin:/bin", "HOME": "/root"}
+            base = ["nice", "-n", "5", "/venv/bin/python", "-m", "pytest", "-q", "-p", "no:cacheprovider", "--timeout=6000",
+                    "--continue-on-collection-errors", "-n", "6", "dev/tests"]
+            r1 = subprocess.run(base + ["-k", "not aas_core_meta_v3"], cwd=wt, env=env, capture_output=True, text=True)
+            kexpr = " or ".join(f"(Test_{t} and aas_core_meta_v3)" for t in targets)
+            r2 = subprocess.run(base + ["-k", kexpr], cwd=wt, env=env, capture_output=True, text=True) if targets else None
+            failed = sorted(set(re.findall(r"^FAILED (\S+)", r1.stdout + (r2.stdout if r2 else ""), re.M)))
+            meta["tests_with_patch"] = {
+                "all_tests_except_the_aas_core_meta_v3_goldens": r1.stdout.strip().split("\n")[-1],
+                "aas_core_meta_v3_goldens_run": targets,
+                "aas_core_meta_v3_goldens_result": r2.stdout.strip().split("\n")[-1] if r2 else "none",
+                "failed": failed,
+                "note": "the v3 goldens of the other targets were not run by the lead (each takes 10-40 min on the loaded "
+                        "machine); the author of the change reports which ones it ran in notes.md",
+            }
         mp.write_text(json.dumps(meta, indent=1) + "\n")
         print(d.name, meta["tests_with_patch"], flush=True)
     finally:
